@@ -29,7 +29,12 @@ structure CR (α : Type) where
 def compileTimeHelpers : List String :=
   ["limit", "now", "seconds", "minutes", "hours", "days", "weeks", "months", "years"]
 
-def lastSegment (s : String) : String := (s.splitOn ".").getLast?.getD ""
+/-- the text after the last '.' (kernel-reducible, unlike `String.splitOn`) -/
+def lastSegChars : List Char → List Char → List Char
+  | [], acc => acc.reverse
+  | c :: rest, acc => if c == '.' then lastSegChars rest [] else lastSegChars rest (c :: acc)
+
+def lastSegment (s : String) : String := String.ofList (lastSegChars s.toList [])
 
 def trimQuotes (s : String) : String :=
   String.ofList ((s.toList.dropWhile (· == '"')).reverse.dropWhile (· == '"')).reverse
